@@ -36,7 +36,7 @@ type Run struct {
 	checksRun int
 	allocated int // entities created by the current call
 	// lines written to the trace: the driver must have processed exactly these (END line)
-	oLines, rLines, dLines int
+	oLines, rLines, dLines, cLines int
 	cloneLines             []string
 }
 
@@ -146,6 +146,7 @@ func (r *Run) runHistory(idx int, next func(p *Pool, step int) (Op, bool), onTai
 			r.fallible++
 		}
 		shared := sharedFollower(p, o)
+		c01pre := c01Before(p, o)
 		deadAttached := renamesNodeOfAttachedDeadInterface(p, o)
 		nBefore := len(p.ents)
 		out, bad := exec(p, o)
@@ -189,6 +190,7 @@ func (r *Run) runHistory(idx int, next func(p *Pool, step int) (Op, bool), onTai
 			fmt.Fprintf(r.trace, "# panic in %s\n", line)
 			failOn("c06", "c06-panic@"+st+":"+panicClass(out.PanicMsg), fmt.Sprintf("%s panicked: %s", st, trunc(out.PanicMsg, 200)))
 			r.hist[o.Name+".panic"]++
+			p.c01.off = true
 			if r.verbose {
 				fmt.Printf("%-40s PANIC %s\n", o, out.PanicMsg)
 			}
@@ -254,6 +256,17 @@ func (r *Run) runHistory(idx int, next func(p *Pool, step int) (Op, bool), onTai
 		if modelled(o.Name) {
 			fmt.Fprintf(r.trace, "R %s\n", res)
 			r.rLines++
+		}
+		// the geometry decision of this call in the vocabulary of the C01 layout model
+		c01class := ""
+		if out.Err == nil {
+			c01class = "ok"
+		} else if cause == "Layout" {
+			c01class = "layout"
+		}
+		for _, l := range c01Lines(p, o, c01pre, c01class, nBefore) {
+			fmt.Fprintf(r.trace, "C %s\n", l)
+			r.cLines++
 		}
 		fmt.Fprintf(r.trace, "D %s\n", modelDump(p))
 		r.dLines++
@@ -452,7 +465,7 @@ func main() {
 		}
 	}
 	// the END line lets the check tell a complete trace from a truncated one
-	fmt.Fprintf(r.trace, "END %d %d %d %d\n", r.cases, r.oLines, r.rLines, r.dLines)
+	fmt.Fprintf(r.trace, "END %d %d %d %d %d\n", r.cases, r.oLines, r.rLines, r.dLines, r.cLines)
 	if err := r.trace.Flush(); err != nil {
 		fmt.Fprintf(os.Stderr, "harness: writing the trace failed: %v\n", err)
 		os.Exit(3)
@@ -467,7 +480,7 @@ func main() {
 		panic(err)
 	}
 	w := bufio.NewWriter(sf)
-	fmt.Fprintf(w, "cases %d\nsteps %d\nfallible %d\nrefused %d\ntainted %d\nnontrivial %d\nchecks %d\nolines %d\nrlines %d\ndlines %d\n", r.cases, r.steps, r.fallible, r.refused, r.tainted, len(r.nontriv), r.checksRun, r.oLines, r.rLines, r.dLines)
+	fmt.Fprintf(w, "cases %d\nsteps %d\nfallible %d\nrefused %d\ntainted %d\nnontrivial %d\nchecks %d\nolines %d\nrlines %d\ndlines %d\nclines %d\n", r.cases, r.steps, r.fallible, r.refused, r.tainted, len(r.nontriv), r.checksRun, r.oLines, r.rLines, r.dLines, r.cLines)
 	var keys []string
 	for k := range r.hist {
 		keys = append(keys, k)
